@@ -23,6 +23,7 @@ type vGenSess struct {
 	lens     []int  // payload lengths of the latest write / data ops (what a reader may find queued)
 	forms    bool   // this session signals some remote candidates through non-canonical address literals
 	fl       []string // the in-flight datagrams as printed by the implementation ("src>dst:…"), for directed scenarios
+	seq      int      // running number of the directed scenario of this kind (cycles through its variants)
 }
 
 // pickForms decides whether the session uses non-canonical literals (IPv4-mapped / expanded IPv6) for a
@@ -126,7 +127,11 @@ func (g *vGenSess) cfg(letter string, lite bool, renom bool) string {
 		}
 	}
 	add("max", "", "", "", "", "1", "2", "3")
-	add("disc", "", "", "", "", "", "", "0", "1000", "3000")
+	if lite {
+		add("disc", "", "0", "0", "1000") // an EXPLICIT zero disables the timeout, also for the lite defaults
+	} else {
+		add("disc", "", "", "", "", "", "", "0", "1000", "3000")
+	}
 	add("fail", "", "", "", "", "", "", "0", "2000", "4000")
 	add("ka", "", "", "", "0", "300", "1000")
 	add("ci", "", "50", "100", "200")
@@ -167,6 +172,7 @@ func vAgentGen(o *vOut, r *vRand, thorough bool, args []string, emit func(string
 		}
 	}
 	t0 := time.Now()
+	nSupersede := r.intn(24)
 	for i := 0; i < n && time.Since(t0) < budget; i++ {
 		g := &vGenSess{r: r.fork(), emit: emit, o: o, focus: focus}
 		singles := 3 // out of 10
@@ -181,7 +187,9 @@ func vAgentGen(o *vOut, r *vRand, thorough bool, args []string, emit func(string
 		switch {
 		case focus == "C20" && g.r.chance(1, 4):
 			g.renomExchange()
-		case ((focus == "C03" || focus == "C06" || focus == "C20" || focus == "C07") && g.r.chance(1, 6)) || (focus == "" && g.r.chance(1, 30)):
+		case ((focus == "C03" || focus == "C06") && g.r.chance(1, 3)) || ((focus == "C20" || focus == "C07") && g.r.chance(1, 6)) || (focus == "" && g.r.chance(1, 30)):
+			g.seq = nSupersede
+			nSupersede++
 			g.prflxSelSupersede()
 		case (focus == "C20" && g.r.chance(1, 4)) || (focus == "" && g.r.chance(1, 25)) || (focus == "C06" && g.r.chance(1, 10)):
 			g.renomPrflx()
@@ -207,7 +215,7 @@ func (g *vGenSess) prio() int {
 func (g *vGenSess) double() {
 	r := g.r
 	g.hasB = true
-	liteB := r.chance(1, 8) && g.focus != "C01" // C01 is about two full agents (lite: C03)
+	liteB := (r.chance(1, 8) || (g.focus == "C04" && r.chance(1, 4))) && g.focus != "C01" // C01 is about two full agents (lite: C03)
 	renom := r.chance(1, 4) || (g.focus == "C20" && r.chance(3, 4))
 	g.o.stat("sess.double")
 	g.pickForms()
@@ -597,6 +605,9 @@ func (g *vGenSess) inject(addrA, addrB, net0 int) {
 		user = "-"
 	case 3:
 		user = "uX:" + ru
+	case 4:
+		// nearly right: the expected value with something appended / cut off / without the remote part
+		user = []string{lu + ":" + ru + "x", lu + ":" + ru + ":" + ru, lu + ":" + ru[:len(ru)-1], lu + ":", lu, ":" + ru, lu + ru}[r.intn(7)]
 	}
 	key := lp
 	if cls == 2 || cls == 3 {
@@ -644,7 +655,7 @@ func (g *vGenSess) inject(addrA, addrB, net0 int) {
 func (g *vGenSess) single() {
 	r := g.r
 	g.o.stat("sess.single")
-	lite := r.chance(1, 5)
+	lite := r.chance(1, 5) || (g.focus == "C04" && r.chance(1, 4))
 	g.pickForms()
 	g.op("new %s -", g.cfg("A", lite, r.chance(1, 3)))
 	net0 := 0
@@ -727,12 +738,14 @@ func (g *vGenSess) prflxSelSupersede() {
 	}
 	g.op("new renom=1,tb=9,u=uA0,p=pA0%s tb=5,u=uB0,p=pB0%s", []string{"", ",ka=0", ",ci=50"}[r.intn(3)], []string{"", ",ucp=1", ",pw=0"}[r.intn(3)])
 	x1, x2, y1, y2 := 16, 32, 176, 192
-	twoB := r.chance(2, 3)
+	// the variants are cycled, not drawn: (moment of the supersession) x (B's locals: one / two, nominated pair first or last)
+	variant, shape := g.seq%4, (g.seq/4)%3
+	twoB, y2first := shape != 0, shape == 2
 	p1, p2 := 2130706431, []int{2130706430, 100, 2130706431}[r.intn(3)]
 	g.op("addlocal A 1 0 %d %d -", x1, p1)
 	g.op("addlocal A 1 0 %d %d -", x2, p2)
 	// the order of B's locals decides whether the nominated pair is the first or the last sibling in the checklist
-	if twoB && r.chance(1, 2) {
+	if twoB && y2first {
 		g.op("addlocal B 1 0 %d %d -", y2, g.prio())
 		g.op("addlocal B 1 0 %d %d -", y1, g.prio())
 	} else {
@@ -770,7 +783,7 @@ func (g *vGenSess) prflxSelSupersede() {
 		}
 	}
 	supersede := func() { g.op("addremote B 1 0 %d %d -%s", x2, p2, g.fm()) }
-	switch r.intn(4) {
+	switch variant {
 	case 0: // while the deferred nomination waits for B's own check
 		supersede()
 		pump(3, false)
